@@ -72,6 +72,9 @@ func genC04(ref core.CaseRef, r *rand.Rand) *c04Case {
 			}
 			if hostile && r.Intn(2) == 0 {
 				doms[i] = append(doms[i], nil)
+				if r.Intn(2) == 0 {
+					doms[i] = append(doms[i], `\N`) // a text that spells a NULL marker, next to NULL
+				}
 			}
 		}
 		all = append(all, doms[i]...)
